@@ -123,6 +123,16 @@ def run(ctx):
             return
         f = os.path.join(ctx.work, "replay.cue")
         open(f, "w").write(rp.get("program", ""))
+        if rp.get("replay_kind") == "disj":
+            p = vlib.run([harness, "--mode", "disj", "--file", f], timeout=600, stderr=None)
+            m = vlib.run([exe], input=rp.get("case", "") + "\n", timeout=600, stderr=None).stdout.strip().split("\t")
+            first = p.stdout.split("\n")[0].split(" ")
+            cov.update({"replay_output": p.stdout[:4000], "model": m, "evaluations": 1})
+            ok = len(first) == 6 and len(m) == 6 and m[3] == "1" or (len(first) == 6 and len(m) == 6 and first[1] == m[0] and first[2] == m[1] and first[3] == m[2] and first[4] == m[4]
+                                                                    and all(v.endswith(":OK") for v in first[5].split(",")))
+            if not ok:
+                ctx.violation({"kind": "replayed-disjunction-case-still-fails", "program": rp.get("program"), "output": p.stdout[:4000], "model": m})
+            return
         mode = "filecheck" if rp.get("replay_kind") == "file" else "replay"
         args = [harness, "--mode", mode, "--file", f]
         if rp.get("profile"):
@@ -307,6 +317,66 @@ def run(ctx):
     bump("bounds-cases", len(bc))
 
     lap("bounds")
+    # ---- 4b. disjunctions with defaults: value.go *adt.Disjunction / adt.Default vs DisjModel ----
+    nd = 2500 if quick else 25000
+    dd = os.path.join(ctx.work, "disj")
+    os.makedirs(dd, exist_ok=True)
+    pdj = vlib.run([harness, "--mode", "disj", "--seed", str(ctx.seed), "--n", str(nd), "--out", dd], timeout=3000)
+    dstats = dict((m.group(1), int(m.group(2))) for m in re.finditer(r"stat (\S+) (\d+)", (pdj.stdout or "") + (getattr(pdj, "stderr", "") or "")))
+    dc = read_lines(os.path.join(dd, "cases.txt"))
+    di = read_lines(os.path.join(dd, "impl.txt"))
+    dsrc = open(os.path.join(dd, "src.txt")).read().split("### ")[1:]
+    dm = vlib.run([exe], input="\n".join(dc) + "\n", timeout=3000, stderr=None).stdout.split("\n")[:-1] if dc else []
+    if not (len(dc) == len(di) == len(dm) == len(dsrc)):
+        raise vlib.CheckFailure("disj line count mismatch %d %d %d %d" % (len(dc), len(di), len(dm), len(dsrc)))
+    dj = {"cases": len(dc), "distinct": len(set(dc)), "fold_sensitive_skipped": 0, "ok": 0, "with_default_taken": 0,
+          "final_prints_several_disjuncts": 0, "concrete_after_defaults": 0, "profiles_checked": 0}
+    ddistinct = set()
+    for c, a, m, sr in zip(dc, di, dm, dsrc):
+        prog = sr.split("\n", 1)[1]
+        mf = m.split("\t")
+        af = a.split(" ")
+        payload = {"program": prog.split("--- ")[0], "printed_per_profile": prog[prog.find("--- "):][:1500], "case": c, "impl": a, "model": m,
+                   "replay_kind": "disj", "replay": "bin/check C07 --replay <this file>"}
+        if len(mf) != 6 or len(af) != 5:
+            violation(dict(payload, kind="disj-model-driver-failed"), no_input=True)
+            continue
+        m_acc, m_facc, m_tag, m_fs, m_set, m_rt = mf
+        i_acc, i_dacc, i_tag, i_set, verdicts = af
+        if m_rt != "RT-OK":
+            violation(dict(payload, kind="extracted-model-contradicts-theorem-print_marked_roundtrip"), no_input=True)
+            continue
+        if m_fs == "1":
+            # operand-order sensitive default bookkeeping of the evaluator (C04's known finding F2): not this property's subject
+            dj["fold_sensitive_skipped"] += 1
+            continue
+        bad = None
+        if m_acc != i_acc:
+            bad = ("disj-core-correspondence-broken", "atoms accepted by the original value differ between cue and the Core/Disj model", True)
+        elif m_facc != i_dacc or m_tag != i_tag:
+            bad = ("disj-default-differs-from-model", "Default() of the original value differs between cue and take_defaults of the model", True)
+        elif any(not v.endswith(":OK") for v in verdicts.split(",")):
+            bad = ("printed-disjunction-evaluates-to-a-different-value", "the printed text, compiled on its own, does not have the observables of the original (definition-mode profiles) / of its default (value-mode profiles): " + verdicts, False)
+        elif m_set != i_set:
+            bad = ("final-print-differs-from-print_final", "the set of disjuncts written under Final() differs from the model's print_final (take_defaults + one disjunct per surviving value)", False)
+        if bad:
+            violation(dict(payload, kind=bad[0], what=bad[1]), no_input=bad[2])
+            bump("disj-" + bad[0])
+            continue
+        dj["ok"] += 1
+        dj["profiles_checked"] += len(verdicts.split(","))
+        if m_acc != m_facc:
+            dj["with_default_taken"] += 1
+        if "|" in m_set:
+            dj["final_prints_several_disjuncts"] += 1
+        if m_tag == "C":
+            dj["concrete_after_defaults"] += 1
+        if c not in ddistinct:
+            ddistinct.add(c)
+        if len(samples) < 6 and "|" in m_set and m_acc != m_facc:
+            samples.append({"disjunction_case": payload["program"], "final_disjunct_set": m_set, "printed": payload["printed_per_profile"][:300]})
+    dj["generator"] = dstats
+    lap("disjunctions")
     # ---- 5. repository corpus (seed independent) ------------------------------------------------
     dc = os.path.join(ctx.work, "corpus")
     os.makedirs(dc, exist_ok=True)
@@ -351,8 +421,9 @@ def run(ctx):
         "checker_cmd": proof["checker_cmd"] + ("; coqchk -silent -o Verif.Properties.C07" if not quick else ""),
         "trusted_base": TRUSTED, "theorems": proof["theorems"], "axioms_reported": proof["axioms"],
         "audit_files": proof["audit_files"],
-        "evaluations": len(cases) + len(bc) + len(cc) + st.get("model-printer-read-by-cue-ok", 0),
-        "distinct_nontrivial": nontrivial + len(bdist),
+        "evaluations": len(cases) + len(bc) + len(cc) + len(dc) + st.get("model-printer-read-by-cue-ok", 0),
+        "distinct_nontrivial": nontrivial + len(bdist) + dj["with_default_taken"],
+        "disjunctions": dj,
         "rule": "generated CoreCUE programs (1-3 root conjuncts: schema literals with regular/optional/required fields, patterns, '...', definitions, close(), literals embedding a definition/close, data structs; scalars incl. bounds with negative operands; labels that need quoting) that evaluate without error, each printed under the profiles default, Final, Concrete, All, Raw (programs without definitions only), Definitions+Hidden+Optional; non-trivial = distinct (program, profile) with a closed scope, pattern or optional/required field and a nested struct in the value. bounds: distinct random conjunctions of int/string and integer bounds (1-6 values, operands incl. 0, negatives and the limits of the sized integer types)",
         "samples": samples,
         "generator": gen_stats, "per_profile": per_profile, "outcomes": st,
@@ -369,7 +440,7 @@ def run(ctx):
 
 MANIFEST = {
     "category": "proof",
-    "text": "Coq theorems on the CoreCUE evaluator model: for every list of conjunct groups whose normal form is printable (scalar-valued patterns), printing the normal form computed from the conjuncts and evaluating the printed expression gives exactly the result tree of the original - fields, presence, kinds, accepted and pinned atoms, closedness at every node (print_roundtrip = eval_print + normalize_sound + normalize_wf, by induction on depth, every label universe and fuel); the Final/Concrete/All projections commute with denotation and survive print+eval (project_sound, project_print_sound); the canonical shape of a scalar is equivalent (canon_scal_equiv); the bounds.go / MatchBuiltinRange rewriting to int/uint/sized types admits exactly the same atoms for every constraint list in every order (range_rewrite_sound). Tied to cue by (a) the direct check: format.Node(Value.Syntax(opts)) of generated evaluable programs must parse and compile on its own and re-evaluate to the same canonical form (closedness probed in the language) under the profile's projection, (b) the printed AST strictly converted to a CoreCUE expression must have the model value of the original, (c) the model's own printed normal form is read by cue and must give the same canonical form, (d) exact token agreement of bounds.go with range_rewrite, (e) the evaluable in.cue files of cue/testdata against a triaged expectation table.",
-    "note": "partial: the exporter's expression mode (expr.go mergeValues, adt.go reference re-linking, self.go let hoisting, export.Def's _#def wrapper) is not modelled - the model printer is a specification-layer value printer; those parts are covered only by the direct re-evaluation check. Struct-valued patterns are outside the printable normal forms (reported as OUT). Known findings on the unchanged tree (reported as KNOWN-FINDING, not violations; F3 `< -1` printed `<-1` is fixed and its witness a regression case): F10 close() re-wrapping; F11 _#def wraps all conjuncts; F12/F13 dangling references; F14 untriaged corpus errors. Mismatches inside the syntactic class of F10/F11 (a closed node receiving a further struct conjunct, definition-mode profiles) are never raised as violations.",
+    "text": "Coq theorems on the CoreCUE evaluator model: for every list of conjunct groups whose normal form is printable (scalar-valued patterns), printing the normal form computed from the conjuncts and evaluating the printed expression gives exactly the result tree of the original - fields, presence, kinds, accepted and pinned atoms, closedness at every node (print_roundtrip = eval_print + normalize_sound + normalize_wf, by induction on depth, every label universe and fuel); the Final/Concrete/All projections commute with denotation and survive print+eval (project_sound, project_print_sound); the canonical shape of a scalar is equivalent (canon_scal_equiv); the bounds.go / MatchBuiltinRange rewriting to int/uint/sized types admits exactly the same atoms for every constraint list in every order (range_rewrite_sound). Tied to cue by (a) the direct check: format.Node(Value.Syntax(opts)) of generated evaluable programs must parse and compile on its own and re-evaluate to the same canonical form (closedness probed in the language) under the profile's projection, (b) the printed AST strictly converted to a CoreCUE expression must have the model value of the original, (c) the model's own printed normal form is read by cue and must give the same canonical form, (d) exact token agreement of bounds.go with range_rewrite, (f) disjunctions with default marks over scalar disjuncts: print_marked_roundtrip (the evaluated disjunction printed with its marks has the same value/default pair), print_final_resolve / print_final_values (under TakeDefaults = Final/Concrete/cue eval/cue export the text resolves like the original and its values are the original defaults), tied on generated conjunctions of scalars and marked disjunctions under all six profiles (observables of value and default, set of disjuncts written under Final() = print_final), (e) the evaluable in.cue files of cue/testdata against a triaged expectation table.",
+    "note": "partial: the exporter's expression mode (expr.go mergeValues, adt.go reference re-linking, self.go let hoisting, export.Def's _#def wrapper) is not modelled - the model printer is a specification-layer value printer; those parts are covered only by the direct re-evaluation check. Struct-valued patterns are outside the printable normal forms (reported as OUT). Disjunctions are modelled with scalar disjuncts only; cases in the operand-order sensitive class of C04/F2 are skipped and counted. Known findings on the unchanged tree (reported as KNOWN-FINDING, not violations; F3 `< -1` printed `<-1` is fixed and its witness a regression case): F10 close() re-wrapping; F11 _#def wraps all conjuncts; F12/F13 dangling references; F14 untriaged corpus errors. Mismatches inside the syntactic class of F10/F11 (a closed node receiving a further struct conjunct, definition-mode profiles) are never raised as violations.",
     "technique": "Coq proof (print/normalize round trip over the CoreCUE conjunct-set evaluator, profile projections, bound rewriting) + direct round-trip check on the implementation + extracted-model differential check of printed ASTs",
 }
